@@ -765,6 +765,9 @@ class FileHashStore(HashStore):
             # `find_object` which will throw custom exceptions if there is an issue with
             # the reference files, which help us determine the path to proceed with.
             self._synchronize_object_locked_pids(pid)
+            # `tag_object` synchronizes on the reference locked pids only, so
+            # it must be excluded here as well while the references are examined
+            self._synchronize_referenced_locked_pids(pid)
 
             try:
                 object_info_dict = self._find_object(pid)
@@ -887,6 +890,7 @@ class FileHashStore(HashStore):
                 return
         finally:
             # Release pid
+            self._release_reference_locked_pids(pid)
             self._release_object_locked_pids(pid)
 
     def delete_metadata(self, pid: str, format_id: Optional[str] = None) -> None:
